@@ -121,7 +121,7 @@ def build(recipe):
             sh, sw = L.get("stride", [1, 1])
             dh, dw = L.get("dil", [1, 1])
             pad = L.get("pad", "SAME")
-            _, H, W, C = x["shape"]
+            N, H, W, C = x["shape"]
             if pad == "VALID" and op != "TRANSPOSE_CONV" and ((kh - 1) * dh + 1 > H or (kw - 1) * dw + 1 > W):
                 raise ValueError("conv window larger than input")
             wdt = L.get("wdtype", "uint8" if x["dtype"] == "uint8" else "int8")
@@ -146,7 +146,9 @@ def build(recipe):
                 wscales = [f32(wsc)]
                 wzps = [0 if wdt == "int8" else L.get("wzp", 128)]
             wdata = _weights(rs, wshape, L.get("wstyle", "uniform"), wdt)
-            if L.get("shared_w") is not None and L["shared_w"] in shared:
+            if L.get("w_in") is not None:
+                wt = values[L["w_in"]]["t"]  # dynamic (non-constant) weights: a network input
+            elif L.get("shared_w") is not None and L["shared_w"] in shared:
                 wt = shared[L["shared_w"]]
             else:
                 wt = add_tensor(nm + "_w", wshape, wdt, (wscales, wzps), wdata, qdim if len(wscales) > 1 else 0)
@@ -169,7 +171,7 @@ def build(recipe):
                        ("TransposeConvOptions", {"Padding": 0 if pad == "SAME" else 1, "StrideW": sw, "StrideH": sh}), version=3)
             else:
                 OH, OW = conv_out(H, kh, sh, dh, pad), conv_out(W, kw, sw, dw, pad)
-                y = new_value(nm, [1, OH, OW, oc], x["dtype"], oq)
+                y = new_value(nm, [N, OH, OW, oc], L.get("odtype", x["dtype"]), oq)
                 if op == "CONV_2D":
                     opt = ("Conv2DOptions", {"Padding": 0 if pad == "SAME" else 1, "StrideW": sw, "StrideH": sh,
                                              "FusedActivationFunction": act, "DilationWFactor": dw, "DilationHFactor": dh})
@@ -196,15 +198,15 @@ def build(recipe):
                 insl.append(-1)
             batch = int(np.prod(x["shape"])) // n_in
             y = new_value(nm, [batch, oc], x["dtype"], oq)
-            add_op(BO[op], insl, [y["t"]], ("FullyConnectedOptions", {"FusedActivationFunction": act, "KeepNumDims": False}), version=4)
+            add_op(BO[op], insl, [y["t"]], ("FullyConnectedOptions", {"FusedActivationFunction": act, "KeepNumDims": bool(L.get("keep_dims", False))}), version=4)
         elif op in ("MAX_POOL_2D", "AVERAGE_POOL_2D"):
             kh, kw = L["k"]
             sh, sw = L.get("stride", [1, 1])
             pad = L.get("pad", "VALID")
-            _, H, W, C = x["shape"]
+            N, H, W, C = x["shape"]
             if pad == "VALID" and (kh > H or kw > W):
                 raise ValueError("pool window larger than input")
-            y = new_value(nm, [1, conv_out(H, kh, sh, 1, pad), conv_out(W, kw, sw, 1, pad), C], x["dtype"], oq)
+            y = new_value(nm, [N, conv_out(H, kh, sh, 1, pad), conv_out(W, kw, sw, 1, pad), C], x["dtype"], oq)
             add_op(BO[op], [x["t"]], [y["t"]], ("Pool2DOptions", {"Padding": 0 if pad == "SAME" else 1, "StrideW": sw, "StrideH": sh,
                                                                    "FilterWidth": kw, "FilterHeight": kh,
                                                                    "FusedActivationFunction": act}), version=2)
@@ -285,7 +287,7 @@ def build(recipe):
             if len(x["shape"]) != 4:
                 raise ValueError("resize rank")
             st = add_tensor(nm + "_size", [2], "int32", None, np.array([oh, ow], np.int32))
-            y = new_value(nm, [1, oh, ow, x["shape"][3]], x["dtype"], x["q"] if not L.get("q") else oq)
+            y = new_value(nm, [x["shape"][0], oh, ow, x["shape"][3]], x["dtype"], x["q"] if not L.get("q") else oq)
             optn = "ResizeBilinearOptions" if op == "RESIZE_BILINEAR" else "ResizeNearestNeighborOptions"
             add_op(BO[op], [x["t"], st], [y["t"]], (optn, {"AlignCorners": L.get("align_corners", False),
                                                             "HalfPixelCenters": L.get("half_pixel", False)}), version=3)
@@ -343,6 +345,21 @@ def build(recipe):
             pt = add_tensor(nm + "_perm", [len(perm)], "int32", None, np.array(perm, np.int32))
             y = new_value(nm, [x["shape"][p] for p in perm], x["dtype"], x["q"])
             add_op(BO[op], [x["t"], pt], [y["t"]], ("TransposeOptions", {}))
+        elif op == "PACK":
+            ax = L["axis"]
+            shp = list(x["shape"])
+            shp.insert(ax, len(ins))
+            y = new_value(nm, shp, x["dtype"], x["q"])
+            add_op(BO[op], [v["t"] for v in ins], [y["t"]], ("PackOptions", {"ValuesCount": len(ins), "Axis": ax}))
+        elif op == "UNPACK":
+            ax = L["axis"]
+            n = x["shape"][ax]
+            shp = [s_ for i_, s_ in enumerate(x["shape"]) if i_ != ax]
+            outs = [new_value(f"{nm}_{j}", shp, x["dtype"], x["q"]) for j in range(n)]
+            add_op(BO[op], [x["t"]], [o["t"] for o in outs], ("UnpackOptions", {"Num": n, "Axis": ax}))
+        elif op == "CAST":
+            y = new_value(nm, x["shape"], L["odtype"], None)
+            add_op(BO[op], [x["t"]], [y["t"]], ("CastOptions", {"InDataType": TTYPE[x["dtype"]], "OutDataType": TTYPE[L["odtype"]]}))
         elif op == "ARG_MAX":
             at = add_tensor(nm + "_axis", [], "int32", None, np.array([L.get("axis", 3)], np.int32))
             y = new_value(nm, x["shape"][:-1], "int32", None)
@@ -702,7 +719,11 @@ def gen_options(r, profile="mixed"):
 
 
 def _n_out(L):
-    return L["n"] if L["op"] == "SPLIT" else 1
+    if L["op"] == "SPLIT":
+        return L["n"]
+    if L["op"] == "UNPACK":
+        return L["n_out"]
+    return 1
 
 
 def drop_layer(recipe, j):
@@ -802,3 +823,218 @@ def minimise_recipe(recipe, still_fails, budget=60):
                         best = cand
                         changed = True
     return best
+
+
+# ----------------------------------------------------------------------------------------------- corner cases (C13)
+PRIMES = [1, 1, 2, 3, 5, 7, 11, 13, 17, 31, 37, 64, 127, 251]
+ALL_DT = ["int8", "uint8", "int16", "int32", "float32"]
+
+
+def _corner_shape(r, rank=None, big=False):
+    rank = r.choice([0, 1, 2, 3, 4, 4, 4, 5]) if rank is None else rank
+    shp = [r.choice(PRIMES[:9] if not big else PRIMES) for _ in range(rank)]
+    while int(np.prod(shp)) > 20000 and shp:
+        shp[r.randrange(len(shp))] = 1
+    if rank >= 1 and r.random() < 0.6:
+        shp[0] = 1
+    return shp
+
+
+def gen_corner_recipe(r):
+    """Structurally valid but unusual models: ranks 0..5, unit / prime dims, batch > 1, every data type, missing or per-axis
+    quantisation, unsupported operators and attribute values, dynamic weights, third-party custom operators."""
+    dt = r.choice(["int8", "int8", "uint8", "int16", "int32", "float32"])
+    q = (lambda: None) if dt in ("float32",) or r.random() < 0.12 else (lambda: list(_rand_q(r, dt if dt != "int32" else "int16")))
+    kind = r.choice(["ew", "ew", "unary", "unary", "conv", "conv", "dw", "fc", "pool", "shape", "mean", "softmax", "resize", "unsupported", "chain"])
+    inputs, layers = [], []
+
+    def inp(shape, dtype=dt, qq="auto"):
+        inputs.append(dict(shape=shape, dtype=dtype, q=(q() if qq == "auto" else qq)))
+        return len(inputs) - 1
+
+    if kind == "ew":
+        a = _corner_shape(r)
+        mode = r.random()
+        if mode < 0.4:
+            b = list(a)
+        elif mode < 0.7:
+            b = [1 if r.random() < 0.5 else s_ for s_ in a][r.randrange(len(a) + 1):] if a else []
+        else:
+            b = [1] * r.randint(0, len(a))
+        x0 = inp(a)
+        if r.random() < 0.5:
+            x1 = inp(b)
+            layers.append(dict(op=r.choice(["ADD", "SUB", "MUL", "MINIMUM", "MAXIMUM"]), act=r.choice(["NONE", "RELU", "RELU6"]), q=q(), **{"in": [x0, x1]}))
+        elif dt != "float32" and dt != "int32":
+            layers.append(dict(op=r.choice(["ADD", "SUB", "MUL", "MINIMUM", "MAXIMUM"]), act="NONE", q=q(), const=dict(shape=b, q=q() or [0.1, 0]),
+                               swap=r.random() < 0.5, **{"in": [x0]}))
+        else:
+            layers.append(dict(op="ADD", act="NONE", q=q(), **{"in": [x0, x0]}))
+    elif kind == "unary":
+        x0 = inp(_corner_shape(r, big=True))
+        op = r.choice(["RELU", "RELU6", "RELU_N1_TO_1", "LOGISTIC", "TANH", "HARD_SWISH", "ABS", "LEAKY_RELU", "EXP", "RSQRT", "QUANTIZE", "SOFTMAX", "PRELU"])
+        if op == "PRELU" and (dt not in DTRANGE or len(inputs[0]["shape"]) < 1):
+            op = "RELU"
+        L = dict(op=op, q=q(), **{"in": [x0]})
+        if op == "LEAKY_RELU":
+            L["alpha"] = r.choice([0.1, 0.0, 1.0, -1.0, 3.5])
+        if op == "QUANTIZE":
+            L["odtype"] = r.choice(["int8", "uint8", "int16"])
+            L["q"] = list(_rand_q(r, L["odtype"]))
+        layers.append(L)
+    elif kind in ("conv", "dw"):
+        N = r.choice([1, 1, 1, 2, 3])
+        H, W, C = r.choice(PRIMES[:10]), r.choice(PRIMES[:10]), r.choice([1, 2, 3, 4, 7, 8, 16, 17, 40])
+        kh, kw = r.choice([(1, 1), (3, 3), (1, 7), (9, 1), (2, 2), (H, W), (16, 2), (3, 5)])
+        sh, sw = r.choice([(1, 1), (2, 2), (3, 3), (4, 4), (1, 4), (5, 1), (2, 3)])
+        dh, dw_ = r.choice([(1, 1), (2, 2), (3, 3), (1, 2), (4, 1)])
+        pad = r.choice(["SAME", "VALID"])
+        if pad == "VALID" and ((kh - 1) * dh + 1 > H or (kw - 1) * dw_ + 1 > W):
+            pad = "SAME"
+        cdt = dt if dt in ("int8", "uint8", "int16") else r.choice(["int8", "float32"])
+        if cdt == "float32":
+            x0 = inp([N, H, W, C], "float32", None)
+            layers.append(dict(op="CUSTOM", code="FloatConvStandIn", options=[], **{"in": [x0]}))
+        else:
+            x0 = inp([N, H, W, C], cdt, list(_rand_q(r, cdt)))
+            L = dict(op="CONV_2D" if kind == "conv" else "DEPTHWISE_CONV_2D", k=[kh, kw], stride=[sh, sw], dil=[dh, dw_], pad=pad,
+                     act=r.choice(["NONE", "RELU", "RELU6", "RELU_N1_TO_1"]), q=list(_rand_q(r, cdt)), per_axis=r.random() < 0.5,
+                     wstyle=r.choice(["uniform", "extreme", "const", "small"]), wscale=f32(r.choice([1e-5, 0.01, 0.5, 3.0])), bias=r.random() < 0.7,
+                     bmax=r.choice([10, 2000, 2 ** 30]), **{"in": [x0]})
+            if kind == "conv":
+                L["oc"] = r.choice([1, 2, 3, 8, 17, 64])
+                if r.random() < 0.12:
+                    w_in = inp([L["oc"], kh, kw, C], "int8" if cdt != "uint8" else "uint8", [0.01, 0])
+                    L["w_in"] = w_in
+                    L["per_axis"] = False
+            else:
+                L["mult"] = r.choice([1, 1, 1, 2, 4])
+            if cdt == "int16":
+                L["bias64"] = r.random() < 0.7
+            layers.append(L)
+    elif kind == "fc":
+        shp = _corner_shape(r, r.choice([1, 2, 2, 3, 4]))
+        cdt = dt if dt in ("int8", "uint8", "int16") else "int8"
+        x0 = inp(shp, cdt, list(_rand_q(r, cdt)))
+        layers.append(dict(op="FULLY_CONNECTED", oc=r.choice([1, 2, 7, 16, 100]), act=r.choice(["NONE", "RELU"]), q=list(_rand_q(r, cdt)),
+                           wstyle="uniform", wscale=0.01, bias=r.random() < 0.6, flatten=r.random() < 0.6, keep_dims=r.random() < 0.2, **{"in": [x0]}))
+    elif kind == "pool":
+        N = r.choice([1, 1, 2])
+        H, W, C = r.choice(PRIMES[:11]), r.choice(PRIMES[:11]), r.choice([1, 3, 8, 17])
+        kh, kw = r.choice([(1, 1), (2, 2), (H, W), (H, 1), (9, 9), (3, 3), (1, 2)])
+        kh, kw = max(1, kh), max(1, kw)
+        pad = r.choice(["SAME", "VALID"])
+        if pad == "VALID" and (kh > H or kw > W):
+            pad = "SAME"
+        cdt = dt if dt in DTRANGE else "int8"
+        x0 = inp([N, H, W, C], cdt, list(_rand_q(r, cdt)))
+        layers.append(dict(op=r.choice(["MAX_POOL_2D", "AVERAGE_POOL_2D"]), k=[kh, kw], stride=list(r.choice([(1, 1), (2, 2), (3, 1), (4, 4), (1, 5)])),
+                           pad=pad, act=r.choice(["NONE", "RELU6"]), **{"in": [x0]}))
+    elif kind == "shape":
+        shp = _corner_shape(r, r.choice([1, 2, 3, 4, 4, 5]))
+        x0 = inp(shp)
+        n = int(np.prod(shp))
+        op = r.choice(["RESHAPE", "CONCATENATION", "PAD", "STRIDED_SLICE", "SPLIT", "PACK", "UNPACK", "TRANSPOSE", "SQUEEZE", "EXPAND_DIMS", "SLICE"])
+        if op == "RESHAPE":
+            layers.append(dict(op=op, shape=r.choice([[n], [1, n], [n, 1], [1, 1, 1, n], [1, n, 1, 1], [1, 1, n, 1, 1]]), **{"in": [x0]}))
+        elif op == "CONCATENATION":
+            layers.append(dict(op=op, axis=r.randrange(len(shp)), q=q(), **{"in": [x0] * r.choice([1, 2, 3])}))
+        elif op == "PAD":
+            layers.append(dict(op=op, pads=[[r.choice([0, 0, 1, 2]), r.choice([0, 0, 1])] for _ in shp], **{"in": [x0]}))
+        elif op == "STRIDED_SLICE":
+            b = [r.randrange(s_) for s_ in shp]
+            e = [r.randint(bb + 1, s_) for bb, s_ in zip(b, shp)]
+            layers.append(dict(op=op, begin=b, end=e, **{"in": [x0]}))
+        elif op == "SLICE":
+            b = [r.randrange(s_) for s_ in shp]
+            layers.append(dict(op=op, begin=b, size=[r.randint(1, s_ - bb) for bb, s_ in zip(b, shp)], **{"in": [x0]}))
+        elif op == "SPLIT":
+            ax = r.randrange(len(shp))
+            divs = [d for d in (1, 2, 3, 5, 7) if shp[ax] % d == 0 and shp[ax] >= d]
+            layers.append(dict(op=op, axis=ax, n=r.choice(divs), **{"in": [x0]}))
+        elif op == "PACK":
+            layers.append(dict(op=op, axis=r.randrange(len(shp) + 1), **{"in": [x0] * r.choice([1, 2, 3])}))
+        elif op == "UNPACK":
+            ax = r.randrange(len(shp))
+            layers.append(dict(op=op, axis=ax, n_out=shp[ax], **{"in": [x0]}))
+        elif op == "TRANSPOSE":
+            perm = list(range(len(shp)))
+            r.shuffle(perm)
+            layers.append(dict(op=op, perm=perm, **{"in": [x0]}))
+        elif op == "SQUEEZE":
+            dims = [i for i, s_ in enumerate(shp) if s_ == 1]
+            layers.append(dict(op=op, dims=dims, shape=[s_ for s_ in shp if s_ != 1], **{"in": [x0]}))
+        else:
+            ax = r.randrange(len(shp) + 1)
+            layers.append(dict(op="EXPAND_DIMS", axis=ax, shape=shp[:ax] + [1] + shp[ax:], **{"in": [x0]}))
+    elif kind == "mean":
+        shp = _corner_shape(r, r.choice([2, 3, 4, 4]), big=True)
+        x0 = inp(shp)
+        axes = sorted(set(r.randrange(len(shp)) for _ in range(r.choice([1, 1, 2, 3]))))
+        layers.append(dict(op="MEAN", axes=axes, keepdims=r.random() < 0.6, q=q(), **{"in": [x0]}))
+    elif kind == "softmax":
+        shp = _corner_shape(r, r.choice([1, 2, 3, 4]), big=True)
+        cdt = dt if dt in DTRANGE else "int8"
+        x0 = inp(shp, cdt, list(_rand_q(r, cdt)))
+        layers.append(dict(op="SOFTMAX", beta=r.choice([1.0, 0.1, 10.0, 0.0]), q=list(_act_q(cdt, "SOFTMAX")), **{"in": [x0]}))
+    elif kind == "resize":
+        N = r.choice([1, 1, 2])
+        H, W, C = r.choice(PRIMES[:8]), r.choice(PRIMES[:8]), r.choice([1, 3, 8])
+        cdt = dt if dt in DTRANGE else "int8"
+        x0 = inp([N, H, W, C], cdt, list(_rand_q(r, cdt)))
+        f = r.choice([1, 2, 2, 3, 4, 8])
+        ac = r.random() < 0.4
+        size_ = r.choice([[H * f, W * f], [(H - 1) * f + 1, (W - 1) * f + 1], [r.randint(1, 20), r.randint(1, 20)], [1, 1], [H, W * 2]])
+        layers.append(dict(op=r.choice(["RESIZE_BILINEAR", "RESIZE_NEAREST_NEIGHBOR"]), size=[max(1, size_[0]), max(1, size_[1])], align_corners=ac,
+                           half_pixel=(not ac) and r.random() < 0.4, **{"in": [x0]}))
+    elif kind == "unsupported":
+        shp = _corner_shape(r, r.choice([1, 2, 4]))
+        op = r.choice(["FLOOR", "CEIL", "NEG", "SIN", "CAST", "GATHER", "ARG_MAX", "CUSTOM", "DEQUANTIZE"])
+        if op in ("FLOOR", "CEIL", "NEG", "SIN"):
+            x0 = inp(shp, "float32", None)
+            layers.append(dict(op=op, **{"in": [x0]}))
+        elif op == "CAST":
+            x0 = inp(shp, r.choice(ALL_DT), None)
+            layers.append(dict(op=op, odtype=r.choice(ALL_DT), **{"in": [x0]}))
+        elif op == "GATHER":
+            x0 = inp(shp)
+            ax = r.randrange(len(shp))
+            layers.append(dict(op=op, axis=ax, indices=[r.randrange(shp[ax]) for _ in range(r.randint(1, 4))], **{"in": [x0]}))
+        elif op == "ARG_MAX":
+            x0 = inp(shp)
+            layers.append(dict(op=op, axis=len(shp) - 1, **{"in": [x0]}))
+        elif op == "DEQUANTIZE":
+            cdt = dt if dt in DTRANGE else "int8"
+            x0 = inp(shp, cdt, list(_rand_q(r, cdt)))
+            layers.append(dict(op=op, **{"in": [x0]}))
+        else:
+            x0 = inp(shp)
+            layers.append(dict(op="CUSTOM", code=r.choice(["Vendor", "TFLite_Detection_PostProcess", ""]), options=[r.randrange(256) for _ in range(r.randint(0, 40))],
+                               **{"in": [x0]}))
+    else:  # chain: an ordinary generated network with one corner twist
+        rec = gen_recipe(r, profile="mixed")
+        return rec
+    n_in = len(inputs)
+    nvals = n_in + sum(_n_out(L) for L in layers)
+    # optionally follow with a plain NPU-friendly op so that the corner sits in the middle of a graph
+    outs = list(range(n_in, nvals))
+    for L in layers:
+        L["seed"] = r.randrange(1 << 30)
+    return dict(name="corner", inputs=inputs, layers=layers, outputs=outs, dup_names=r.random() < 0.1)
+
+
+VERBOSE_FLAGS = ["--verbose-graph", "--verbose-quantization", "--verbose-packing", "--verbose-tensor-purpose", "--verbose-tensor-format",
+                 "--verbose-schedule", "--verbose-allocation", "--verbose-high-level-command-stream", "--verbose-register-command-stream",
+                 "--verbose-operators", "--verbose-weights", "--verbose-performance", "--verbose-progress", "--verbose-config", "--verbose-all",
+                 "--show-cpu-operations", "--timing", "--show-subgraph-io-summary", "--force-symmetric-int-weights", "--enable-debug-db",
+                 "--subgraph-output"]
+
+
+def gen_cli_extras(r):
+    out = []
+    k = r.choice([0, 0, 1, 2, 4])
+    for f in r.sample(VERBOSE_FLAGS, k):
+        out.append(f)
+    if r.random() < 0.1:
+        out += ["--recursion-limit", str(r.choice([1000, 4000, 20000]))]
+    return out
